@@ -133,8 +133,19 @@ class QvmEval(EvaluationContext):
         self.global_vars = global_vars
         self.find_routine_func = find_routine_func
 
+    def get_node_routine(self, node):
+        # expressions given to the debugger are not part of any
+        # routine block; names in them are those of the routine the
+        # current stack frame belongs to.
+        frame = self.cpu.cur_frame
+        if frame is None:
+            return self.main_routine
+        return self.find_routine_func(frame.code_start)
+
     def eval_lvalue(self, lvalue):
         frame = self.cpu.cur_frame
+        if frame is None:
+            raise EvalError('No stack frame')
         routine = self.find_routine_func(frame.code_start)
         if (lvalue.base_var in self.global_consts or lvalue.base_var in routine.local_consts) and \
            (lvalue.array_indices or lvalue.dotted_vars):
